@@ -2101,6 +2101,296 @@ def witnesses(ctx):
     ctx.note("refuted_witnesses_replayed", replayed)
 
 
+# ---------------------------------------------------------------------------
+# source tie (DESIGN.md section 4.5): the scalar kernels of distance.py regenerated from the current source
+# (harness/translate/distance.py -> DDGen.DistGen) and proved equal to the hand model (coq/srctie/DistGenEquiv.v)
+# ---------------------------------------------------------------------------
+
+SOURCE_TIES = [{
+    "name": "distance", "translator": "distance", "gen_module": "DistGen", "equiv": ["DistGenEquiv"],
+    "needs": ["Dist.DistSrcPrims", "Dist.DistProofs", "Dist.DistSubProofs", "Dist.DistScalarProofs"],
+    "sources": ["deepdiff/distance.py"],
+    "fragment": "_get_numbers_distance, _numpy_div, _get_numpy_array_distance (element-wise), _get_datetime_distance, _get_date_distance, "
+                "_get_timedelta_distance, _get_time_distance, TYPES_TO_DIST_FUNC, get_numeric_types_distance, DistanceMixin._get_rough_distance "
+                "(use_log_scale=False; _get_item_length, __get_item_rough_length and __calculate_item_deephash are pinned, not translated)"}]
+
+TIE_HEADER = (HEADER + "\nFrom DD Require Import Dist.DistSrcPrims.\nFrom DDGen Require Import DistGen.\n"
+              "Definition nolog (_ _ : pynum) : PrimFloat.float := PrimFloat.zero.\n"
+              "Definition nplog (x : PrimFloat.float) : PrimFloat.float := x.\n"
+              "Definition thr01 : PrimFloat.float := 0x1.999999999999ap-4%float.")
+TIE_ROUGH_FNS = ("_get_rough_distance", "_get_item_length", "__get_item_rough_length", "__calculate_item_deephash", "DistanceMixin")
+TIE_STATE = {"scope": set()}
+
+
+def _tie_diff(ctx, name, header, pairs, shard=400):
+    """pairs: [(sx term over the REGENERATED definitions, sx term over the hand model)], evaluated inside Coq
+    (vm_compute, scratch/srctie on the load path as DDGen); returns (indices on which the two differ, errors)"""
+    from concurrent.futures import ThreadPoolExecutor
+    if not pairs:
+        return [], []
+    ctx.ensure_built(header)
+    gen_dir = os.path.join(ctx.scratch, "srctie")
+    files = []
+    for k in range(0, len(pairs), shard):
+        fn = os.path.join(ctx.scratch, "tie_%s_%d.v" % (name, k // shard))
+        with open(fn, "w") as f:
+            f.write("From Coq Require Import List String ZArith NArith Bool.\nImport ListNotations.\nFrom DD Require Import Base.Sx.\n")
+            f.write(header + "\nLocal Open Scope string_scope.\nDefinition cases : list (sx * sx) := [\n")
+            f.write(";\n".join("(%s,\n %s)" % (g, h) for (g, h) in pairs[k:k + shard]))
+            f.write("\n].\nEval vm_compute in run_cases cases.\n")
+        files.append(fn)
+
+    def one(fn):
+        return core.sh(["coqc", "-Q", core.THEORIES, "DD", "-Q", gen_dir, "DDGen", fn], timeout=900, cwd=ctx.scratch)
+    with ThreadPoolExecutor(max_workers=core.NCPU) as ex:
+        results = list(ex.map(one, files))
+    import re
+    bad, errors = [], []
+    for k, (rc, out) in enumerate(results):
+        m = re.search(r'"BEGIN\n(.*)END"', out, re.S)
+        if rc != 0 or not m:
+            errors.append("%s shard %d: %s" % (name, k, out[-400:]))
+            continue
+        for line in m.group(1).splitlines():
+            if line.strip():
+                bad.append(k * shard + int(line.partition("\t")[0]))
+    return sorted(bad), errors
+
+
+def _tie_scope(rec):
+    """which streams a broken tie concerns, when the generated model cannot be differenced: the function that holds the
+    rejected line"""
+    import ast
+    import re
+    scope = set()
+    detail = str(rec.get("detail", ""))
+    if any(w in detail for w in TIE_ROUGH_FNS):
+        scope.add("rough")
+    m = re.search(r"distance\.py:(\d+)", detail)
+    try:
+        tree = ast.parse(open(os.path.join(core.REPO, "deepdiff", "distance.py")).read())
+        ln = int(m.group(1)) if m else None
+        for node in ast.walk(tree):
+            if isinstance(node, (ast.FunctionDef, ast.ClassDef)) and ln is not None and node.lineno <= ln <= (node.end_lineno or node.lineno):
+                scope.add("rough" if node.name in TIE_ROUGH_FNS else "scalar")
+    except Exception:  # noqa
+        pass
+    return scope or {"scalar", "rough"}
+
+
+def _tie_rough_records(pairs, cfgs):
+    """real calls of _get_rough_distance (root and pairing) for the differencing of g__get_rough_distance"""
+    from deepdiff import DeepDiff
+    rec = Recorder()
+    rec.install()
+    out = []
+    if not rec.installed:
+        return out
+    try:
+        for (t1, t2) in pairs:
+            for cfg in cfgs:
+                rec.records.clear()
+                try:
+                    DeepDiff(copy.deepcopy(t1), copy.deepcopy(t2), get_deep_distance=True, **cfg)
+                except Exception:  # noqa
+                    pass
+                for r in list(rec.records):
+                    if not (root_ok(r["t1"]) and root_ok(r["t2"])) or r.get("cutoff") is None or r.get("delta") is None:
+                        continue
+                    if r["result"][0] == "exc" and not isinstance(r["result"][1], ERRS):
+                        continue
+                    try:
+                        parts = (coq_root(r["t1"]), coq_root(r["t2"]), coq_float(float(r["cutoff"])), coq_dv(r["delta"], _Ids()))
+                    except (TypeError, AssertionError, ValueError):
+                        continue
+                    out.append({"t1": t1, "t2": t2, "cfg": cfg, "r": r, "parts": parts})
+    finally:
+        rec.uninstall()
+    return out
+
+
+def on_source_tie_break(ctx, name, rec):
+    """The regenerated kernels are no longer proved equal to the hand model.  If they compiled: difference them against
+    the hand model INSIDE Coq on grids of arguments, then judge every differing input like a generated case (the
+    ordinary bit-exact correspondence hand model / implementation and the direct oracle).  Returns what was searched."""
+    import random
+    rng = random.Random(ctx.seed ^ 0x71E)          # own stream: the streams of run() are those of an unbroken run
+    status = rec.get("status")
+    if status in ("translator-rejected", "generated-model-does-not-compile"):
+        TIE_STATE["scope"] = _tie_scope(rec)
+        return {"differencing": "none: no generated model to evaluate (%s)" % status,
+                "escalated_streams": sorted(TIE_STATE["scope"]), "detail": str(rec.get("detail", ""))[:300]}
+    report = {"differencing": {}, "judged": {}, "errors": []}
+    cap = 40
+    # ---- _get_numbers_distance ------------------------------------------------------------------------------------
+    grid = F_SPECIAL + I_SPECIAL + [True, False] + D_SPECIAL
+    defs, names = [], {}
+
+    def ref(x, is_max=False):
+        key = ("m" if is_max else "g", repr(x), type(x).__name__)
+        if key not in names:
+            names[key] = "%s%d" % (key[0], len(names))
+            defs.append("Definition %s := %s." % (names[key], coq_float(x) if is_max else coq_pynum(x)))
+        return names[key]
+    triples = [(a, b, mx) for a in grid for b in grid for mx in (1.0, 0.3)]
+    triples += [(1e308, 1.7e308, 1.0), (2 ** 53, 2 ** 53 + 1, 1.0), (5e-324, 1e-323, 5e-324), (10 ** 400, 1, 1.0), (1, 2, 0.0),
+                (2, 0.5, 1.0), (1e-320, 3e-320, 1e-300), (Decimal("9007199254740993"), 2 ** 53, 1.0), (10 ** 20, 10 ** 20 + 1, 1.0)]
+    small = [0, 1, -1, 2, 3, 0.0, -0.0, 0.5, 1.5, -1.0, 5e-324, 1e308, MAXD, -MAXD, float("inf"), True, Decimal("1.5")]
+    triples += [(a, b, mx) for a in small for b in small for mx in MAX_SPECIAL]
+    for _ in range(1500):
+        a = rng.choice(grid) if rng.random() < 0.3 else rand_double(rng)
+        b = rng.choice(grid) if rng.random() < 0.3 else (a if rng.random() < 0.1 else rand_double(rng))
+        triples.append((a, b, rng.choice(MAX_SPECIAL) if rng.random() < 0.7 else abs(rand_double(rng))))
+    ingrid = set(id(x) for x in grid)
+    terms = []
+    for (a, b, mx) in triples:
+        ta = ref(a) if id(a) in ingrid else coq_pynum(a)
+        tb = ref(b) if id(b) in ingrid else coq_pynum(b)
+        tm = ref(mx, True) if (mx in (1.0, 0.3) or any(mx is q for q in MAX_SPECIAL)) else coq_float(mx)
+        terms.append((ta, tb, tm))
+    hdr = TIE_HEADER + "\n" + "\n".join(defs)
+    bad, err = _tie_diff(ctx, "numbers", hdr, [("sx_dres (g__get_numbers_distance nolog %s %s %s false thr01)" % t,
+                                                "sx_dres (numbers_distance %s %s %s)" % t) for t in terms])
+    report["errors"] += err
+    report["differencing"]["_get_numbers_distance"] = {"arguments": len(triples), "differ": len(bad),
+                                                       "first": [repr(triples[i]) for i in bad[:3]]}
+    if bad:
+        TIE_STATE["scope"].add("scalar")
+        from deepdiff.distance import _get_numbers_distance
+        cases = []
+        for i in bad[:cap]:
+            a, b, mx = triples[i]
+            res = call(_get_numbers_distance, a, b, mx)
+            exp = obs_exc(res[1]) if res[0] == "exc" else obs_dres(res[1])
+            cases.append(("sx_dres (numbers_distance %s %s %s)" % (coq_pynum(a), coq_pynum(b), coq_float(mx)), exp,
+                          {"a": repr(a), "b": repr(b), "max_": repr(mx), "found_by": "source tie: regenerated model differs from the hand model here"}))
+            ctx.seen(("tie_num", repr(a), repr(b), mx), nontrivial=not (a == b))
+            if mx >= 0 and not any(isinstance(q, float) and math.isnan(q) for q in (a, b)):
+                check_number_result(ctx, "_get_numbers_distance", a, b, mx, res, a == b)
+        mism = ctx.coq_cases("tie_numbers", HEADER, cases, label="source_tie:numbers_distance")
+        report["judged"]["_get_numbers_distance"] = {"inputs": len(cases), "hand_model_vs_implementation_mismatches": len(mism)}
+    # ---- _get_numpy_array_distance, element-wise ------------------------------------------------------------------------
+    fl = [x for x in F_SPECIAL if not math.isnan(x)] + [5.0, 20.0, 13.0, -7.0, 7.0]
+    trip = [(a, b, mx) for a in fl for b in fl for mx in (1.0, 0.3)] + [(rand_double(rng), rand_double(rng), rng.choice([1.0, 0.3, 0.5, 0.1])) for _ in range(600)]
+    bad, err = _tie_diff(ctx, "numpy", TIE_HEADER, [
+        ("sx_float (g__get_numpy_array_distance nplog %s %s %s false thr01)" % (coq_float(a), coq_float(b), coq_float(mx)),
+         "sx_float (numbers_distance_np %s %s %s)" % (coq_float(a), coq_float(b), coq_float(mx))) for (a, b, mx) in trip])
+    report["errors"] += err
+    report["differencing"]["_get_numpy_array_distance"] = {"arguments": len(trip), "differ": len(bad), "first": [repr(trip[i]) for i in bad[:3]]}
+    if bad:
+        TIE_STATE["scope"].add("scalar")
+        try:
+            import numpy as np
+            from deepdiff.distance import _get_numpy_array_distance
+            cases = []
+            with np.errstate(all="ignore"):
+                for i in bad[:cap]:
+                    a, b, mx = trip[i]
+                    res = call(lambda: float(_get_numpy_array_distance(np.array([a]), np.array([b]), mx)[0]))
+                    case = {"kind": "numpy", "a": repr(a), "b": repr(b), "max_": repr(mx), "found_by": "source tie"}
+                    ctx.seen(("tie_np", a, b, mx), nontrivial=a != b)
+                    if res[0] == "exc":
+                        ctx.fail(dict(case, exception=type(res[1]).__name__), "_get_numpy_array_distance raises %r" % (res[1],))
+                        continue
+                    r = res[1]
+                    cases.append(("sx_float (numbers_distance_np %s %s %s)" % (coq_float(a), coq_float(b), coq_float(mx)), obs_float(r), case))
+                    if math.isinf(a) or math.isinf(b):
+                        continue
+                    if math.isnan(r) or not (0 <= r <= mx):
+                        ctx.fail(dict(case, result=repr(r)), "_get_numpy_array_distance(%r, %r, max_=%r) = %r is outside [0, max_]" % (a, b, mx, r))
+                    elif (r == 0) != (a == b):
+                        ctx.fail(dict(case, result=repr(r)), "_get_numpy_array_distance(%r, %r, max_=%r) = %r: zero exactly for equal values fails" % (a, b, mx, r))
+            mism = ctx.coq_cases("tie_numpy", HEADER, cases, label="source_tie:numpy_array_distance")
+            report["judged"]["_get_numpy_array_distance"] = {"inputs": len(cases), "hand_model_vs_implementation_mismatches": len(mism)}
+        except ImportError:
+            pass
+    # ---- get_numeric_types_distance ---------------------------------------------------------------------------------
+    pool = gen_scalars(rng, 30)
+    spairs = [(a, b, mx) for a in pool for b in pool for mx in (1.0,)] + [(a, b, 0.3) for a in pool[:45] for b in pool[:45] if type(a) is type(b)]
+    bad, err = _tie_diff(ctx, "scalars", TIE_HEADER, [
+        ("sx_odres (g_get_numeric_types_distance nolog %s %s %s false thr01)" % (coq_scalar(a), coq_scalar(b), coq_float(mx)),
+         "sx_odres (numeric_types_distance %s %s %s)" % (coq_scalar(a), coq_scalar(b), coq_float(mx))) for (a, b, mx) in spairs], shard=300)
+    report["errors"] += err
+    report["differencing"]["get_numeric_types_distance"] = {"arguments": len(spairs), "differ": len(bad), "first": [repr(spairs[i]) for i in bad[:3]]}
+    if bad:
+        TIE_STATE["scope"].add("scalar")
+        from deepdiff.distance import get_numeric_types_distance
+        from deepdiff.helper import not_found
+        cases = []
+        # one differing input per kind of pair first: the first ones in grid order may all be of one kind
+        kinds, chosen = set(), []
+        for i in bad:
+            k = (type(spairs[i][0]).__name__, type(spairs[i][1]).__name__)
+            if k not in kinds:
+                kinds.add(k)
+                chosen.append(i)
+        chosen += [i for i in bad if i not in set(chosen)][:cap]
+        for i in chosen[:2 * cap]:
+            a, b, mx = spairs[i]
+            res = call(get_numeric_types_distance, a, b, mx)
+            if res[0] == "ok" and res[1] is not_found:
+                exp = "not_found"
+            else:
+                exp = obs_exc(res[1]) if res[0] == "exc" else obs_dres(res[1])
+            cases.append(("sx_odres (numeric_types_distance %s %s %s)" % (coq_scalar(a), coq_scalar(b), coq_float(mx)), exp,
+                          {"a": repr(a), "b": repr(b), "max_": mx, "found_by": "source tie"}))
+            eq = scalar_equal(a, b)
+            ctx.seen(("tie_scalar", repr(a), repr(b), mx), nontrivial=not eq)
+            if exp != "not_found":
+                check_number_result(ctx, "get_numeric_types_distance", a, b, mx, res, eq)
+        mism = ctx.coq_cases("tie_scalars", HEADER, cases, label="source_tie:numeric_types_distance")
+        report["judged"]["get_numeric_types_distance"] = {"inputs": len(cases), "hand_model_vs_implementation_mismatches": len(mism)}
+    # ---- _get_rough_distance on the arguments of real calls ------------------------------------------------------------
+    D, DT, TD, T = datetime.date, datetime.datetime, datetime.timedelta, datetime.time
+    rp = [(1, ""), (1, 2), (1, -1), (0, 0.0), (True, 1), (1, 1.0), (None, 1), (None, ""), ([], ""), ({}, ""), (1, []), ([1, 2], (1, 3)),
+          ([1, 2, 3], [1, 2, 3, 4]), ([1], [1, None]), ({"a": 1}, {"a": 1, "b": None}), ([None, None, None], ["", "", ""]), ("abc", "abd"),
+          ([1, 2, 3], [3, 2, 5]), ({1, 2}, {2, 3}), ((1, 2), (1, 3, 4)), ([1, 1, 2], [1, 3]), ([[1, 2], [3, 4]], [[4, 3], [2, 1, 0]]),
+          ([{"a": 1, "b": [1, 2]}, {"a": 2, "b": [3]}], [{"a": 2, "b": [3, 4]}, {"a": 1, "b": [2, 1]}]), (Decimal("1.5"), Decimal("2.5")),
+          (D(2020, 1, 1), D(2020, 1, 2)), (DT(2020, 1, 1), DT(2021, 1, 1)), (T(1, 1, 1), T(2, 1, 1)), (TD(1), TD(2)), (0.1, 0.3), (5, 0),
+          ([1.5, 2], [1.5, 3.5]), ([1, [2, [3, [4]]]], [1, [2, [3, [5]]]]), ({}, {"x": {"iterable_items_added_at_indexes": 5}}), ([1, 2], [1, 2]),
+          ({}, {}), ("a", "a"), ([], [None]), ({"k": [1, 2, 3]}, {"k": [1, 2]}), ([[1, 2, 3], [4, 5]], [[4, 5, 6], [1, 2, 3]])]
+    rp = rp + [(b, a) for (a, b) in rp]
+    recs = _tie_rough_records(rp, [{}, {"ignore_order": True}, {"cutoff_distance_for_pairs": 1.0}, {"ignore_order": True, "cutoff_distance_for_pairs": 0.6}])
+    seen_t, uniq = set(), []
+    for q in recs:
+        if q["parts"] not in seen_t:
+            seen_t.add(q["parts"])
+            uniq.append(q)
+    bad, err = _tie_diff(ctx, "rough", TIE_HEADER, [
+        ("sx_rres (g__get_rough_distance nolog (mk_dself %s %s %s false thr01 %s))" % q["parts"],
+         "sx_rres (rough_distance %s %s %s %s)" % q["parts"]) for q in uniq], shard=150)
+    report["errors"] += err
+    report["differencing"]["_get_rough_distance"] = {"real_calls": len(uniq), "differ": len(bad),
+                                                     "first": [repr((uniq[i]["t1"], uniq[i]["t2"], uniq[i]["cfg"])) for i in bad[:3]]}
+    if bad:
+        TIE_STATE["scope"].add("rough")
+        cases, done = [], set()
+        for i in bad[:cap]:
+            q = uniq[i]
+            r = q["r"]
+            res = r["result"]
+            exp = obs_exc(res[1]) if res[0] == "exc" else obs_rough(res[1])
+            cases.append(("sx_rough (rough_distance %s %s %s %s)" % q["parts"], exp,
+                          {"t1": repr(r["t1"]), "t2": repr(r["t2"]), "config": q["cfg"], "root_call": r["root"], "impl": repr(res[1]), "found_by": "source tie"}))
+            if not r["root"] and res[0] == "ok":
+                x = res[1]
+                if isinstance(x, bool) or not isinstance(x, (int, float)) or not (0 <= x <= 1):
+                    ctx.fail({"kind": "pairing_distance", "t1": repr(r["t1"]), "t2": repr(r["t2"]), "config": q["cfg"], "result": repr(x)},
+                             "distance %r used for pairing %s with %s is outside [0, 1]" % (x, repr(r["t1"]), repr(r["t2"])))
+            key = (repr(q["t1"]), repr(q["t2"]), repr(sorted(q["cfg"].items())))
+            if key not in done:
+                done.add(key)
+                oracle_pair(ctx, copy.deepcopy(q["t1"]), copy.deepcopy(q["t2"]), q["cfg"], "source_tie")
+                ctx.seen(("tie_rough",) + key, nontrivial=not same_typed(q["t1"], q["t2"]))
+        mism = ctx.coq_cases("tie_rough", HEADER, cases, shard=150, label="source_tie:rough_distance")
+        report["judged"]["_get_rough_distance"] = {"inputs": len(cases), "hand_model_vs_implementation_mismatches": len(mism)}
+    if not TIE_STATE["scope"]:
+        # nothing differs on the grids: a proof that no longer goes through although the definitions agree where evaluated
+        TIE_STATE["scope"] = {"scalar", "rough"} if status == "equivalence-proof-broken" else {"scalar"}
+    report["escalated_streams"] = sorted(TIE_STATE["scope"])
+    return report
+
+
 def run(ctx):
     # the Coq evaluation of one part overlaps with the Python work of the next ones
     from concurrent.futures import ThreadPoolExecutor
@@ -2113,10 +2403,21 @@ def run(ctx):
         return []
     ctx.coq_cases = deferred
     t = {}
+    # a broken source tie: the streams that exercise the fragment run with their thorough-size budgets
+    escalate = set()
+    if ctx.tie_broken("distance") and not ctx.thorough:
+        scope = TIE_STATE["scope"] or {"scalar", "rough"}
+        escalate = ({numbers_part, scalars_part, numpy_part} if "scalar" in scope else set()) | ({rough_part} if "rough" in scope else set())
+        ctx.note("source_tie_escalation", sorted(f.__name__ for f in escalate))
+    tier0 = ctx.tier
     try:
         for f in (numbers_part, scalars_part, numpy_part, io_model_part, rough_part, extras_part, witnesses):
             t0 = time.time()
-            f(ctx)
+            ctx.tier = "thorough" if f in escalate else tier0
+            try:
+                f(ctx)
+            finally:
+                ctx.tier = tier0
             t[f.__name__] = round(time.time() - t0, 1)
         t0 = time.time()
         for fu in futures:
